@@ -120,3 +120,64 @@ fn c09_fibonacci_accept_reject() {
     }
     finish("c09_fibonacci_accept_reject", cases, bad);
 }
+
+// C18: the STARK verifier returns Err (never panics, never accepts) on malformed proofs
+#[test]
+fn c18_stark_malformed() {
+    let mut bad = Vec::new();
+    let mut cases = 0usize;
+    let config = StarkConfig::standard_fast_config();
+    for n in [8usize, 64, 2048] {
+        let stark = Fib::<F, D> { num_rows: n, _p: PhantomData };
+        let rows = trace(n, F::ZERO, F::ONE);
+        let pis = [F::ZERO, F::ONE, rows[n - 1][1]];
+        let proof = match prove_rows(stark, rows.clone(), pis, &config) { Ok(p) => p, Err(e) => { bad.push(format!("honest trace of {n} rows: {e}")); continue; } };
+        let mut muts: Vec<(&'static str, Box<dyn Fn(&mut StarkProofWithPublicInputs<F, C, D>)>)> = Vec::new();
+        muts.push(("surplus public input", Box::new(|p| p.public_inputs.push(F::ZERO))));
+        muts.push(("missing public input", Box::new(|p| { p.public_inputs.pop(); })));
+        muts.push(("no public inputs", Box::new(|p| p.public_inputs.clear())));
+        muts.push(("truncated local openings", Box::new(|p| { p.proof.openings.local_values.pop(); })));
+        muts.push(("surplus next openings", Box::new(|p| p.proof.openings.next_values.push(FE::ZERO))));
+        muts.push(("quotient openings removed", Box::new(|p| p.proof.openings.quotient_polys = None)));
+        muts.push(("truncated quotient openings", Box::new(|p| { if let Some(q) = p.proof.openings.quotient_polys.as_mut() { q.pop(); } })));
+        muts.push(("auxiliary openings present", Box::new(|p| p.proof.openings.auxiliary_polys = Some(vec![FE::ZERO]))));
+        muts.push(("ctl_zs_first present", Box::new(|p| p.proof.openings.ctl_zs_first = Some(vec![F::ZERO]))));
+        muts.push(("auxiliary cap present", Box::new(|p| p.proof.auxiliary_polys_cap = Some(p.proof.trace_cap.clone()))));
+        muts.push(("quotient cap removed", Box::new(|p| p.proof.quotient_polys_cap = None)));
+        muts.push(("trace cap with 3 entries", Box::new(|p| { p.proof.trace_cap.0.truncate(3); })));
+        muts.push(("empty trace cap", Box::new(|p| p.proof.trace_cap.0.clear())));
+        muts.push(("surplus trace cap entry", Box::new(|p| { let h = p.proof.trace_cap.0[0]; p.proof.trace_cap.0.push(h); })));
+        muts.push(("quotient cap with 3 entries", Box::new(|p| { if let Some(c) = p.proof.quotient_polys_cap.as_mut() { c.0.truncate(3); } })));
+        muts.push(("truncated final polynomial", Box::new(|p| { p.proof.opening_proof.final_poly.coeffs.pop(); })));
+        muts.push(("surplus final polynomial coefficient", Box::new(|p| p.proof.opening_proof.final_poly.coeffs.push(FE::ZERO))));
+        muts.push(("no query rounds", Box::new(|p| p.proof.opening_proof.query_round_proofs.clear())));
+        muts.push(("one query round missing", Box::new(|p| { p.proof.opening_proof.query_round_proofs.pop(); })));
+        muts.push(("first query round without initial openings", Box::new(|p| p.proof.opening_proof.query_round_proofs[0].initial_trees_proof.evals_proofs.clear())));
+        muts.push(("last query round without initial openings", Box::new(|p| p.proof.opening_proof.query_round_proofs.last_mut().unwrap().initial_trees_proof.evals_proofs.clear())));
+        muts.push(("first Merkle path emptied", Box::new(|p| p.proof.opening_proof.query_round_proofs[0].initial_trees_proof.evals_proofs[0].1.siblings.clear())));
+        muts.push(("first Merkle path shortened by one", Box::new(|p| { p.proof.opening_proof.query_round_proofs[0].initial_trees_proof.evals_proofs[0].1.siblings.pop(); })));
+        muts.push(("first Merkle path lengthened by one", Box::new(|p| { let s = &mut p.proof.opening_proof.query_round_proofs[0].initial_trees_proof.evals_proofs[0].1.siblings; let h = s[0]; s.push(h); })));
+        muts.push(("first Merkle path with 20 siblings", Box::new(|p| { let s = &mut p.proof.opening_proof.query_round_proofs[0].initial_trees_proof.evals_proofs[0].1.siblings; let h = s[0]; s.resize(20, h); })));
+        muts.push(("first Merkle path with 28 siblings (LDE of 2^32)", Box::new(|p| { let s = &mut p.proof.opening_proof.query_round_proofs[0].initial_trees_proof.evals_proofs[0].1.siblings; let h = s[0]; s.resize(28, h); })));
+        muts.push(("every Merkle path of the first tree with 28 siblings", Box::new(|p| { for r in p.proof.opening_proof.query_round_proofs.iter_mut() { let s = &mut r.initial_trees_proof.evals_proofs[0].1.siblings; let h = s[0]; s.resize(28, h); } })));
+        muts.push(("first Merkle path with 29 siblings", Box::new(|p| { let s = &mut p.proof.opening_proof.query_round_proofs[0].initial_trees_proof.evals_proofs[0].1.siblings; let h = s[0]; s.resize(29, h); })));
+        muts.push(("first Merkle path with 40 siblings", Box::new(|p| { let s = &mut p.proof.opening_proof.query_round_proofs[0].initial_trees_proof.evals_proofs[0].1.siblings; let h = s[0]; s.resize(40, h); })));
+        muts.push(("first Merkle path with 70 siblings", Box::new(|p| { let s = &mut p.proof.opening_proof.query_round_proofs[0].initial_trees_proof.evals_proofs[0].1.siblings; let h = s[0]; s.resize(70, h); })));
+        muts.push(("second round Merkle path shortened", Box::new(|p| { p.proof.opening_proof.query_round_proofs[1].initial_trees_proof.evals_proofs[0].1.siblings.pop(); })));
+        muts.push(("initial leaf truncated", Box::new(|p| { p.proof.opening_proof.query_round_proofs[0].initial_trees_proof.evals_proofs[0].0.pop(); })));
+        muts.push(("commit-phase caps removed", Box::new(|p| p.proof.opening_proof.commit_phase_merkle_caps.clear())));
+        muts.push(("surplus commit-phase cap", Box::new(|p| { let c = p.proof.trace_cap.clone(); p.proof.opening_proof.commit_phase_merkle_caps.push(c); })));
+        muts.push(("query steps removed", Box::new(|p| p.proof.opening_proof.query_round_proofs[0].steps.clear())));
+        muts.push(("step evals truncated", Box::new(|p| { if let Some(s) = p.proof.opening_proof.query_round_proofs[0].steps.first_mut() { s.evals.pop(); } })));
+        muts.push(("step Merkle path lengthened", Box::new(|p| { if let Some(s) = p.proof.opening_proof.query_round_proofs[0].steps.first_mut() { let h = p.proof.trace_cap.0[0]; s.merkle_proof.siblings.push(h); } })));
+        for (what, m) in &muts {
+            let mut p2 = proof.clone();
+            if catch_unwind(AssertUnwindSafe(|| m(&mut p2))).is_err() { continue; }
+            if format!("{:?}", p2) == format!("{:?}", proof) { continue; } // the surgery does not apply to this proof
+            cases += 1;
+            let o = verdict(stark, p2, &config);
+            if o != "rejected" { bad.push(format!("{n} rows: proof with {what} -> {o}")); }
+        }
+    }
+    finish("c18_stark_malformed", cases, bad);
+}
